@@ -142,6 +142,7 @@ class Engine:
         self.bases = bases or {}
         self.feas_timeout, self.max_paths = feas_timeout, max_paths
         self.dropped = []           # statements dropped by the extraction (for the evidence)
+        self.notes = set()
         self.stats = {'paths': 0, 'feasibility_checks': 0}
 
     @staticmethod
@@ -921,6 +922,10 @@ class Engine:
             hook = self.c.models.get(f'getattr:{base.cls}.{attr}')
             if hook:
                 return hook(self, base)
+            v = self.undeclared_field(base, attr)
+            if v is not NotImplemented:
+                base.f[attr] = v
+                return v
             raise Unsupported(f'{self.c.qual}: undeclared field {base.cls}.{attr} ({text})')
         if isinstance(base, Opt):
             self.oblige('safety', f'none:{text}'[:60], z3.Not(base.isnone))
@@ -969,6 +974,27 @@ class Engine:
         if isinstance(base, (ArrList, PyList, SeqFn, dict, str, SStr, Slice)) or hasattr(base, 'method'):
             return BoundMethod(base, attr)
         raise Unsupported(f'{self.c.qual}: attribute .{attr} of {base!r} ({text})')
+
+    def undeclared_field(self, base, attr):
+        """A field the sidecar's shape does not know (added by a code change): if the class's __init__ in the
+        current source file initialises it with an int / bool / None constant, it is an arbitrary value of that
+        type - no invariant is known about it, so proofs that depend on it fail as undischarged obligations."""
+        cls = self.src.find_class(base.cls)
+        init = next((m for m in cls.body if isinstance(m, ast.FunctionDef) and m.name == '__init__'), None) if cls else None
+        if init is None:
+            return NotImplemented
+        for st in ast.walk(init):
+            if isinstance(st, ast.Assign) and len(st.targets) == 1 and ast.unparse(st.targets[0]) == f'self.{attr}' \
+                    and isinstance(st.value, ast.Constant):
+                v = st.value.value
+                self.notes.add(f'{base.cls}.{attr}: field unknown to the contracts, treated as an arbitrary value')
+                if isinstance(v, bool):
+                    return fresh(f'{attr}', BOOL)
+                if isinstance(v, int):
+                    return fresh(f'{attr}')
+                if v is None:
+                    return Opt(fresh(f'{attr}.isnone', BOOL), fresh(f'{attr}'))
+        return NotImplemented
 
     def e_Subscript(self, e):
         base = self.eval(e.value)
@@ -1447,7 +1473,12 @@ class Engine:
         if isinstance(recv, ArrList) and name == 'append':
             if isinstance(args[0], Obj):
                 args[0].frozen = True
-            self.store(e.func.value, recv.appended(args[0]))
+            new = recv.appended(args[0])
+            if isinstance(e.func.value, ast.Name):
+                # a list is an object: the update is visible through the scope that holds the name (closures too)
+                (self.lookup_scope(e.func.value.id) or self.env)[e.func.value.id] = new
+            else:
+                self.store(e.func.value, new)
             return None
         if isinstance(recv, Slice) and name == 'tobytes':
             return recv
